@@ -198,7 +198,7 @@ func (runInfo *runInfoStruct) runVarStmt(stmt *ast.VarStmt) {
 		if env, ok := runInfo.rv.Interface().(*env.Env); ok {
 			rvs[i] = reflect.ValueOf(env.DeepCopy())
 		} else {
-			rvs[i] = runInfo.rv
+			rvs[i] = detachValue(runInfo.rv)
 		}
 	}
 
